@@ -143,6 +143,27 @@ uint64_t vf_range(vf_rd *r, uint64_t lo, uint64_t hi) {
     return lo + v % (span + 1);
 }
 
+/* one half of a composite value: small, a table boundary +-1, all-ones of k
+ * bytes, or raw 32 bits */
+static uint64_t vf_u64_part(vf_rd *r) {
+    uint8_t sel = vf_u8(r);
+    switch (sel & 3) {
+    case 0:
+        return vf_u8(r);
+    case 1: {
+        uint64_t b = g_bound[vf_u16(r) % g_nbound];
+        static const int64_t d[4] = {0, 1, -1, 0};
+        return b + (uint64_t)d[(sel >> 2) & 3];
+    }
+    case 2: {
+        unsigned k = 1 + ((sel >> 2) & 3);
+        return ((1ULL << (8 * k)) - 1) - ((sel >> 4) & 3);
+    }
+    default:
+        return vf_u32(r);
+    }
+}
+
 uint64_t vf_u64(vf_rd *r) {
     bound_init();
     uint8_t sel = vf_u8(r);
@@ -172,6 +193,19 @@ uint64_t vf_u64(vf_rd *r) {
     case 6:
         return vf_raw64(r);
     default: {
+        if (sel & 0x80) {
+            /* composite: a boundary-ish high part joined to a boundary-ish
+             * low part at a byte position (reaches code that looks at the two
+             * halves of a value separately, e.g. truncation to 32 bits) */
+            static const uint8_t cut[8] = {32, 32, 32, 16, 8, 24, 40, 48};
+            unsigned c = cut[(sel >> 3) & 7];
+            uint64_t lo = vf_u64_part(r), hi = vf_u64_part(r);
+            if (hi == 0) {
+                hi = 1;
+            }
+            uint64_t lomask = (1ULL << c) - 1;
+            return (hi << c) | (lo & lomask);
+        }
         /* k all-ones bytes, or 2^(8k) + small */
         unsigned k = 1 + ((sel >> 3) & 7);
         uint64_t ones = k >= 8 ? UINT64_MAX : ((1ULL << (8 * k)) - 1);
